@@ -330,7 +330,7 @@ PROPERTIES = {
     "C14": {
         "regen": {"groups": ['Pointer']},
         "technique": REGEN_TECHNIQUE,
-        "level_suffix": regen_note('validate, validate_bytes and the ParseError accessors offset / pointer_offset / source_offset / complete_offset / invalid_encoding_len / is_no_leading_slash / is_invalid_encoding (src/pointer.rs)'),
+        "level_suffix": regen_note('validate, validate_bytes, the ParseError accessors offset / pointer_offset / source_offset / complete_offset / invalid_encoding_len / is_no_leading_slash / is_invalid_encoding and its Diagnostic::labels (src/pointer.rs)'),
         "runs": [{"suite": "parse"}],
         "level_text": "Proved in Coq for all byte strings: NoLeadingSlash iff the non-empty input does not start with '/'; for InvalidEncoding the two loop counters are carried "
                       "through the skip-ahead as an explicit invariant, giving complete_offset = index of the first '~' not followed by '0'/'1', pointer_offset = the nearest '/' at or before it, "
